@@ -529,7 +529,7 @@ def main(argv):
             if o["backend"] == "kani":
                 checks = [f["check"] for f in r["failed_checks"] if not any(re.search(p, f["check"]) for p in UNDECIDED_PATTERNS)]
             else:
-                checks = [m.splitlines()[0] for m in r["messages"]]
+                checks = [m.splitlines()[0] for m in r["messages"] if not m.startswith("error: aborting due to")]
             listed = [f for f in findings if f["property"] == pid and f["obligation"] == o["id"]]
             if listed and all(any(f["check"] and f["check"] in c for f in listed) for c in checks):
                 for f in listed:
